@@ -788,7 +788,7 @@ func main() {
 						add(P + "CompositeType(" + P + "ColumnToCollectionType(" + one + "))")
 						add(P + "CompositeType(" + P + "UTF8Type," + P + "ColumnToCollectionType(61:" + P + coll + "," + one + "))")
 						add(P + "CompositeType(" + P + "UTF8Type," + P + "ColumnToCollectionType(" + one + ",62:" + P + coll + "," + one + "x))")
-						add(P + "ColumnToCollectionType(" + one + ")") // not inside a composite
+						add(P + "ColumnToCollectionType(" + one + ")")                                            // not inside a composite
 						add(P + "CompositeType(" + P + "ColumnToCollectionType(" + one + ")," + P + "Int32Type)") // not last
 					}
 				}
@@ -814,7 +814,7 @@ func main() {
 			for _, cls := range []string{"ListType", "ReversedType", "CompositeType", "MapType"} {
 				add(rep(P+cls+"(", d) + P + "Int32Type" + rep(")", d))
 			}
-			add(rep(P+"ListType(", d) + P + "Int32Type" + rep(")", d-1))                // one ")" short
+			add(rep(P+"ListType(", d) + P + "Int32Type" + rep(")", d-1)) // one ")" short
 			add(P + "CompositeType(" + rep(P+"ColumnToCollectionType(61:", d) + P + "Int32Type" + rep(")", d) + ")")
 		}
 		// very long identifiers: class names, parameter names, white space runs
@@ -853,6 +853,8 @@ func main() {
 	// ---- system.local / system.peers rows through the host-row decoders -----------------------------------------
 	hostRows(h)
 	hostChildScenarios(o)
+	// ---- sites of repaired defects, driven with the input that made them panic ----------------------------------
+	siteStreams(h)
 	// ---- PREPARED / rows replies the layers above parseFrame must survive, on a real session -------------------
 	execScenarios(h)
 	// ---- the driver's own goroutines: handshake and heartbeat against a scripted node, in child processes ------
